@@ -641,7 +641,7 @@ def add_context(rng, spec, root, feat):
                     else:
                         spec['context_files'][u2file] = {k2: nv2}
                         udata['uses'] = [{'file': u2file}]
-        if spec.get('placeholders') and (root.get('global_vars') or {}).get('values', {}).get('CFGROOT') and feat.get('ctx_uses_placeholder', True):
+        if spec.get('placeholders') and feat.get('ctx_uses_placeholder', True):     # (every root of a spec with placeholders gets global_vars incl. CFGROOT)
             # `uses` paths of contexts written with a placeholder ({CFGROOT}/ctx/used0.json)
             for d_ in [data] + [spec['context_files'][u_['file']] for u_ in data.get('uses', [])]:
                 for u_ in d_.get('uses', []):
